@@ -159,9 +159,9 @@ def prog(shape: int, tc: int, route: int, nattr: int, s2inc: bool, inc_lo2: bool
         # default satisfies its own bounds and type
         px = B.param.x
         dd = px.default
-        okd = dd is None or (isinstance(dd, (int, float)) and _valid(dd, px.bounds, getattr(px, 'inclusive_bounds', (True, True)))
+        okd = dd is None or (isinstance(dd, (int, float)) and _valid(dd, getattr(px, 'bounds', None), getattr(px, 'inclusive_bounds', (True, True)))
                              and (not isinstance(px, param.Integer) or (isinstance(dd, int))))
-        check('C11.no_class_with_invalid_default', okd, dict(info, after_rejected_add_parameter=True, default=repr(dd), bounds=repr(px.bounds)))
+        check('C11.no_class_with_invalid_default', okd, dict(info, after_rejected_add_parameter=True, default=repr(dd), bounds=repr(getattr(px, 'bounds', None))))
     d = merged['default']
     own_allow_none = k2.get('allow_None', False) or ('default' in k2 and k2['default'] is None)
     if d is None:
@@ -433,6 +433,44 @@ def selnone(typ: int, route: int, s1n: bool, n1: bool, s2n: bool, n2: bool, s2d:
     check('C11.slot_nearest', list(B.param.s.objects) == [1, 2], dict(info, attr='objects', got=repr(list(B.param.s.objects))))
 
 
+def pathflags(typ: int, route: int, s1c: bool, c1: bool, s2c: bool, c2: bool, dflt: int) -> None:
+    """Path / Filename / Foldername: check_exists is a slot like any other - left unspecified it takes the value held by
+    the nearest declaring ancestor; with check_exists False a non-existing default is valid, so creation succeeds."""
+    typ = pick(typ, 0, 2)
+    T = [param.Path, param.Filename, param.Foldername][typ]
+    dflt = pick(dflt, 0, 1)
+    k1 = {'default': [None, '/nonexistent/x'][dflt]}
+    if pickbool(s1c):
+        k1['check_exists'] = pickbool(c1)
+    k2 = {'doc': 'redeclared'}
+    if pickbool(s2c):
+        k2['check_exists'] = pickbool(c2)
+    try:
+        pa = T(**k1)
+    except Exception:
+        assume(False)          # the base declaration is itself invalid (non-existing default with check_exists True)
+
+    class A(param.Parameterized):
+        p = pa
+    try:
+        if route == 0:
+            class B(A):
+                p = T(**k2)
+        else:
+            class B(A):
+                pass
+            B.param.add_parameter('p', T(**k2))
+        ok = True
+    except Exception:
+        ok = False
+    held = k2.get('check_exists', k1.get('check_exists', True))
+    valid = (k1['default'] is None) or (held is False)
+    info = {'path_check_exists': True, 'type': T.__name__, 'route': route, 'k1': repr(k1), 'k2': repr(k2)}
+    check('C11.creation_iff_invalid', ok == valid, dict(info, created=ok, expected=valid))
+    if ok:
+        check('C11.slot_nearest', B.param.p.check_exists is held and B.param.p.default == k1['default'], dict(info, got=B.param.p.check_exists, exp=held))
+
+
 def shards(tier):
     out = []
     q = tier == 'quick'
@@ -467,6 +505,8 @@ def shards(tier):
                                 c.update(s1b=False, lo1=0, hi1=0)
                         out.append(dict(name='sh%d_tc%d_r%d_%d%d' % (shape, tc, route, s2d, s2b), module='harness.c11', fn='prog',
                                         consts=c, budget_s=60 if q else 600))
+    for route in (0, 1):
+        out.append(dict(name='pathflags_r%d' % route, module='harness.c11', fn='pathflags', consts=dict(route=route), budget_s=60 if q else 300))
     for route in (0, 1):
         out.append(dict(name='selnone_r%d' % route, module='harness.c11', fn='selnone', consts=dict(route=route), budget_s=60 if q else 300))
     for route in (0, 1):
